@@ -12,7 +12,8 @@ BUDGET = {"quick": 500, "thorough": 2000}
 TECHNIQUE = 'Hypothesis-generated (polynomial, variable designations, option setting) vs exact formal derivative; linearity/product-rule/mixed-partials metamorphic relations'
 LEVEL_TEXT = "derivative/gradient/hessian on generated arrays under all 16 retain/sort settings with every designation form are compared with the model's formal partial derivatives and the stated result shapes."
 RULE = (
-    "polynomial arrays (0-d..3-d, 1-4 names, 0-6 terms, exponents <= 3, int/float/complex, including "
+    "polynomial arrays (0-d..3-d, 1-4 names, 0-6 terms, exponents <= 3, int/float/complex and (5%) int8/uint8/int16/"
+    "bool storage with values at the limits of the type, including "
     "constants, the zero polynomial, redundant zero terms and unused names) x 1-3 differentiation "
     "variables each designated as name / positional index / p.indeterminants[i] / numpoly.symbols(name) / "
     "numpoly.variable(k)[i] x all 16 settings of retain_names, retain_coefficients, sort_graded, "
@@ -34,7 +35,24 @@ FLAGS = ["retain_names", "retain_coefficients", "sort_graded", "sort_reverse"]
 def case_st(draw):
     names = draw(gen.names_st(max_size=4))
     desc = draw(gen.poly_desc(names=names, max_terms=6, max_exp=3, max_ndim=3))
+    if desc["kind"] == "i" and draw(st.integers(0, 4)) == 0:
+        # narrow integer storage with values near its limits: exponent*coefficient no longer fits
+        # the storage dtype, the formal derivative must still be exact
+        desc["dtype"] = draw(st.sampled_from(["int8", "uint8", "int16", "bool"]))
+        lo, hi = {"int8": (-128, 127), "uint8": (0, 255), "int16": (-300, 300), "bool": (0, 1)}[desc["dtype"]]
+        if desc["dtype"] == "bool":
+            desc["kind"] = "b"
+        size = gen.size_of(tuple(desc["shape"]))
+        for t in desc["terms"]:
+            t[1] = draw(st.lists(st.sampled_from([0, 1, hi, lo, hi // 2, 100 if hi >= 100 else 1]),
+                                 min_size=size, max_size=size))
+        desc.pop("dtype") if desc["kind"] == "b" else None
+        narrow = True
+    else:
+        narrow = False
     op = draw(st.sampled_from(["derivative", "derivative", "derivative", "gradient", "hessian", "laws"]))
+    if narrow and op == "laws":
+        op = "gradient"  # (products of narrow integers wrap by numpy's own rules: no law to check there)
     nv = draw(st.integers(1, 3))
     dvars = []
     for _ in range(nv):
@@ -197,6 +215,8 @@ def check_case(case, ctx):
                         return fail("hessian", "value", "entry (%d,%d): %s" % (i, j, diff))
             ctx.label("hessian")
             ctx.nontrivial(D >= 2 and any(len(t[0]) and max(t[0]) >= 2 for t in case["poly"]["terms"]))
+    if case["poly"].get("dtype") or case["poly"]["kind"] == "b":
+        ctx.label("narrow-coefficient-dtype")
     for k, v in sorted(opts.items()):
         if v != numpoly.get_options(defaults=True)[k]:
             ctx.label("option:%s=%s" % (k, v))
